@@ -1287,6 +1287,18 @@ impl MetadataClient for ObjectStoreMetadataClient {
         let catalog = cas_retry!({
             let (mut catalog, etag) = self.load_catalog_with_etag().await?;
 
+            // A source that is gone was already compacted (or deleted) by someone
+            // else; publishing this target as well would duplicate its rows.
+            if let Some(missing) = source_chunks
+                .iter()
+                .find(|p| !catalog.chunks.contains_key(p.as_str()))
+            {
+                return Err(Error::Metadata(format!(
+                    "Compaction source chunk no longer in catalog: {}",
+                    missing
+                )));
+            }
+
             let new_level = source_chunks
                 .iter()
                 .filter_map(|p| catalog.chunks.get(p).map(|m| m.level))
